@@ -13,7 +13,8 @@ from bfsa.domains.gf2 import GF2, WIDTH
 from bfsa.heap import Unsupported
 from bfsa.load import AnalysisError, NotConst
 from bfsa.symexec import Exec
-from bfsa.terms import Term, show
+from bfsa.guard import unsnap
+from bfsa.terms import C, Term, cval, is_const, show
 
 LEVEL = "proof"
 FN = "bec2format.bec2file.crc8404B"
@@ -89,11 +90,79 @@ def run(prog, chk, tier):
     elem = lr.target
     regvar = None
 
+    tables = {}
+
+    def table_of(base: Term):
+        """a module-level lookup table indexed by a byte: its 256 entries, obtained by interpreting the defining expression
+        (a literal, or a call of a builder function) with the abstract interpreter on constants -- nothing is executed"""
+        if base.uid in tables:
+            return tables[base.uid]
+        vals = None
+        name = None
+        if base.op == "static":
+            v = ex.statics.get(base.args[0])
+            if isinstance(v, (list, tuple)) and all(isinstance(x, int) for x in v):
+                vals, name = list(v), str(base.args[0])
+        elif base.op == "global":
+            mod, name = base.args[0], base.args[1]
+            from bfsa.heap import Unsupported as _U
+
+            ex2 = Exec(prog, policy=lambda e, f, d: f.module.name == mod and d < 6)
+            ex2.sym_bytes = True
+            try:
+                r2 = ex2.run_driver(prog.module(mod), "def drv():\n    return %s\n" % name)
+                items = ex2.iter_items(r2.ret, r2.state) if (not r2.dead and r2.ret is not None) else None
+                if items is None:
+                    # the global is bound by an assignment the loader did not fold: interpret its right-hand side
+                    import ast as _ast
+
+                    for st_ in prog.module(mod).tree.body:
+                        if isinstance(st_, (_ast.Assign, _ast.AnnAssign)) and any(isinstance(tg, _ast.Name) and tg.id == name for tg in (st_.targets if isinstance(st_, _ast.Assign) else [st_.target])):
+                            r2 = ex2.run_driver(prog.module(mod), "def drv():\n    return %s\n" % _ast.unparse(st_.value))
+                            items = ex2.iter_items(r2.ret, r2.state) if (not r2.dead and r2.ret is not None) else None
+                if items is not None and all(is_const(x) and isinstance(cval(x), int) for x in items):
+                    vals = [cval(x) for x in items]
+            except _U:
+                vals = None
+        tables[base.uid] = (vals, name)
+        return tables[base.uid]
+
     def leaf(t: Term):
         if t.op == "loopvar" and t.args[0] == lid and t.args[1] == reg:
             return g.var(0, 16)
         if elem is not None and t is elem:
             return g.var(16, 8)
+        if t.op == "sub" and unsnap(t.args[0]).op in ("static", "global"):
+            vals, name = table_of(unsnap(t.args[0]))
+            if vals is None:
+                raise Unsupported("lookup table %s cannot be evaluated to constants" % show(t.args[0], 3))
+            idx = g.eval(unsnap(t.args[1]), leaf)
+            w = g.width(idx)
+            if w > 8 or len(vals) != 256:
+                raise Unsupported("table %s has %d entries, index is %d bits wide" % (name, len(vals), w))
+            # a table T is usable in the affine domain iff T[x] = T[0] ^ XOR_i x_i * (T[1<<i] ^ T[0]); every entry is checked
+            t0 = vals[0]
+            basis = [vals[1 << i] ^ t0 for i in range(8)]
+            badx = None
+            for x in range(256):
+                lin_ = t0
+                for i in range(8):
+                    if (x >> i) & 1:
+                        lin_ ^= basis[i]
+                if vals[x] != lin_:
+                    badx = (x, vals[x], lin_)
+                    break
+            chk.require(badx is None, "C15.R1.step-table-affine", FN, "%s[0..255]" % name, where,
+                        "all 256 entries of the lookup table are the GF(2)-affine extension of its entries 0, 1, 2, 4, ..., 128 (so the lookup is an affine map of the index bits, as every CRC step table is)",
+                        "entry 0x%02X of the table is 0x%04X, the affine extension of the basis entries gives 0x%04X: the table is not a CRC step table" % (badx if badx else (0, 0, 0)))
+            if badx is not None:
+                raise Unsupported("lookup table %s is not affine over GF(2)" % name)
+            out = g.const(t0)
+            for i in range(8):
+                if idx[i]:
+                    col = [idx[i] if (basis[i] >> j) & 1 else 0 for j in range(len(out))]
+                    out = g.xor(out, col)
+            return out
         if t.op in ("loopvar", "elem", "param", "sym", "attr", "sub"):
             raise Unsupported("value %s is not a function of (register, byte)" % show(t, 4))
         return None
@@ -102,7 +171,12 @@ def run(prog, chk, tier):
     if nxt is None:
         chk.fail("C15.R1.transfer-matrix", FN, "no update of " + reg, where, "loop body does not update the register")
         return
-    m = g.eval(nxt, leaf)
+    try:
+        m = g.eval(nxt, leaf)
+    except Unsupported:
+        if any(o.status == "violation" and o.rule == "C15.R1.step-table-affine" for o in chk.obls):
+            return  # the table itself is wrong: reported above
+        raise
     ref = reference_step(g)
     diff = [i for i in range(16) if m[i] != ref[i]]
     chk.info["matrix_rows"] = ["%06x" % m[i] for i in range(16)]
